@@ -354,7 +354,8 @@ class Tracker:
                     scoring_method(f, x.feature)
                     for x in candidates_feature_dict[track_id]
                 ]
-                oks = scoring_reduction(oks)  # scoring reduction
+                # scoring reduction (a track without candidates in the window has no score)
+                oks = scoring_reduction(oks) if len(oks) > 0 else np.nan
                 scores[f_idx][track_id] = oks
 
         return scores
@@ -388,7 +389,17 @@ class Tracker:
 
         matching_method = self._track_matching_methods[self.track_matching_method]
 
-        row_inds, col_inds = matching_method(cost_matrix)
+        # pairs without a valid score (NaN -> inf cost) must never be matched and must not make
+        # the assignment problem infeasible: give them a large finite cost and drop them afterwards.
+        finite = np.isfinite(cost_matrix)
+        matching_cost = cost_matrix
+        if not finite.all():
+            big = np.abs(cost_matrix[finite]).sum() + 1.0 if finite.any() else 1.0
+            matching_cost = np.where(finite, cost_matrix, big)
+        row_inds, col_inds = matching_method(matching_cost)
+        matched = [(row, col) for row, col in zip(row_inds, col_inds) if finite[row, col]]
+        row_inds = [row for row, _ in matched]
+        col_inds = [col for _, col in matched]
         tracking_scores = [
             -cost_matrix[row, col] for row, col in zip(row_inds, col_inds)
         ]
